@@ -1,4 +1,5 @@
 LINK := full
+KITS := chainkit
 SCHED := 1
 CXXEXTRA := -fsanitize=thread
 TSAN_SRCS := coins.cpp
